@@ -256,7 +256,7 @@ Proof.
     + pose proof (io_flush_sess w1) as Hs. destruct (io_flush w1) as [w2 fr]. cbn [fst] in Hs.
       assert (H2 : wq w w2) by (eapply wq_trans; [exact H | apply wq_same; exact Hs]).
       destruct fr; try exact H2.
-      * eapply wq_trans; [exact H2|]. unfold note_outbound_activity. qstep0.
+      * eapply wq_trans; [exact H2|]. qstep0.
       * eapply wq_trans; [exact H2 | apply hd_wq].
     + destruct e; try (eapply wq_trans; [exact H | apply hd_wq]). exact H.
 Qed.
